@@ -127,8 +127,8 @@ def build_plan(lib, r, thorough):
         by_name.setdefault(f["name"], []).append(fi)
     for name, fis in by_name.items():
         arities = {}
-        for fi in fis:
-            f = lib["functions"][fi]
+        for fi, t_ in [(fi, t_) for fi in fis for t_ in (lib["functions"][fi].get("template") or [None])]:
+            f = ir.instantiate(lib["functions"][fi], t_)
             ins = [p for p in f["params"] if p["kind"] in ir.IN_KINDS]
             nd = sum(1 for p in ins if "default" in p)
             for arity in range(len(ins) - nd, len(ins) + 1):
@@ -150,7 +150,7 @@ def build_plan(lib, r, thorough):
                         variants.append(v)
                 for vals in variants:
                     add({"kind": "call", "name": name, "args": [vals[p["name"]] for p in use]},
-                        {"expect": "ok", "f": fi, "args": vals})
+                        {"expect": "ok", "f": fi, "args": vals, "t": t_})
         # non-matching stacks
         f0 = lib["functions"][fis[0]]
         maxa = max(arities)
@@ -158,6 +158,8 @@ def build_plan(lib, r, thorough):
             add({"kind": "call", "name": name, "args": [1] * n}, {"expect": "reject", "why": "count %d" % n, "f": fis[0]})
         for arity, fi in arities.items():
             f = lib["functions"][fi]
+            if f.get("template"):
+                continue        # which instantiation a stack of other types should have selected is not defined
             use = [p for p in f["params"] if p["kind"] in ir.IN_KINDS][:arity]
             for j, p in enumerate(use):
                 T = p.get("T")
@@ -284,6 +286,9 @@ def run_library(case):
             got = outs.get(k)
             recs = [t for t in trace.get(k, []) if t[0] == "RECV"]
             f = lib["functions"][m["f"]] if "f" in m else None
+            if f is not None and m.get("t"):
+                f = ir.instantiate(f, m["t"])
+                st["template_instantiation_calls"] = st.get("template_instantiation_calls", 0) + 1
             label = "%s %s(%s)" % (lib["name"], op.get("name"), ", ".join(repr(x) for x in op.get("args", [])))
             if got is None:
                 if not res.get("crash_reported"):
@@ -384,7 +389,7 @@ def main(rec):
             ops, meta = build_plan(lib, common.rng("c18", lang, bi), thorough)
             cases.append({"lib": lib, "ops": ops, "meta": meta})
     for k in range(20 if thorough else 3):
-        inst = libs.instances("c++", ("lua",))
+        inst = libs.instances("c++", ("c", "fortran", "lua"))
         lib = libs.build("lm%d" % k, "c++", [r.choice(inst) for _ in range(r.randint(3, 8))], ("c", "fortran", "lua"),
                          namespace=r.choice([None, "outer"]))
         ops, meta = build_plan(lib, r, thorough)
